@@ -213,6 +213,9 @@ use crate::explore::{self, Scenario};
 
 pub struct Upload {
     pub incoming: bool,
+    /// A second, manager-only peer P whose bitfield and interest changes (Pb, Pi, Pn) fall into
+    /// the same rotations as the connection's own.
+    pub second: bool,
 }
 
 #[derive(Default)]
@@ -222,6 +225,8 @@ pub struct UpMon {
     pub bitfield_sent: bool,
     pub interested: bool,
     pub time: u64,
+    pub p_bitfield: bool,
+    pub p_interested: bool,
 }
 
 const UP_REQUESTS: [(&str, (u32, u32, u32)); 4] = [("Q0", (0, 0, 1)), ("Q2", (2, 1, 3)), ("Q1", (1, 0, 1)), ("Qb", (0, 16386, 3))];
@@ -229,7 +234,7 @@ const UP_REQUESTS: [(&str, (u32, u32, u32)); 4] = [("Q0", (0, 0, 1)), ("Q2", (2,
 impl Scenario for Upload {
     type Mon = UpMon;
     fn name(&self) -> String {
-        format!("upload-{}", if self.incoming { "incoming" } else { "outgoing" })
+        format!("upload-{}{}", if self.incoming { "incoming" } else { "outgoing" }, if self.second { "-with-second-peer" } else { "" })
     }
     fn cfg(&self) -> WorldCfg {
         WorldCfg { torrent: torrent(), have: vec![0, 2], peers: vec![peer_cfg(0, !self.incoming)], gated: false, stale: vec![] }
@@ -243,6 +248,10 @@ impl Scenario for Upload {
         w.feed(0, &[refwire::handshake(t.meta.info_hash(), &id)]);
         w.step(&Ev::AdvanceTo(20_500), &[]); // rates reported: rotations are carried out
         mon.time = 20_500;
+        if self.second {
+            let k = w.add_mgr_peer();
+            w.step(&Ev::MgrStats(k, Some(5), Some(5)), &[]);
+        }
     }
     fn enabled(&self, w: &World, mon: &UpMon, _depth: usize) -> Vec<String> {
         if w.peers[0].ended.get() {
@@ -253,11 +262,21 @@ impl Scenario for Upload {
             e.push("B".to_string());
         }
         e.extend(UP_REQUESTS.iter().map(|r| r.0.to_string()));
+        if self.second {
+            e.retain(|x| x != "Q1" && x != "Qb" && x != "Q2");
+            if !mon.p_bitfield {
+                e.push("Pb".to_string());
+            }
+            e.push(if mon.p_interested { "Pn".to_string() } else { "Pi".to_string() });
+        }
         e
     }
     fn concretize(&self, _w: &World, _mon: &UpMon, sym: &str) -> Vec<Ev> {
         let m = match sym {
             "R" => return vec![Ev::Rotate],
+            "Pb" => return vec![Ev::MgrBitfield(0, vec![false, true, false])],
+            "Pi" => return vec![Ev::MgrInterested(0)],
+            "Pn" => return vec![Ev::MgrNotInterested(0)],
             "I" => Msg::Interested,
             "N" => Msg::NotInterested,
             "B" => Msg::Bitfield(vec![0x40]), // the peer owns piece 1, which the client lacks
@@ -279,6 +298,9 @@ impl Scenario for Upload {
             Some("I") => mon.interested = true,
             Some("N") => mon.interested = false,
             Some("B") => mon.bitfield_sent = true,
+            Some("Pb") => mon.p_bitfield = true,
+            Some("Pi") => mon.p_interested = true,
+            Some("Pn") => mon.p_interested = false,
             _ => {}
         }
         let t = &w.t;
@@ -314,7 +336,7 @@ impl Scenario for Upload {
         None
     }
     fn key(&self, w: &World, mon: &UpMon) -> String {
-        format!("{} wire={} bf={} int={}", crate::c12::strip_counters(&w.default_key()), mon.unchoked, mon.bitfield_sent, mon.interested)
+        format!("{} wire={} bf={} int={}", crate::c12::strip_counters(&w.default_key()), mon.unchoked, mon.bitfield_sent, mon.interested) + &format!(" pb={} pi={}", mon.p_bitfield, mon.p_interested)
     }
     fn tags(&self, w: &World, _mon: &UpMon) -> Vec<&'static str> {
         let mut t = vec![];
@@ -371,9 +393,9 @@ pub fn run(ctx: &Ctx) -> Outcome {
     // BFS part
     let mut bfs_total = explore::Stats { exhaustive: true, ..Default::default() };
     let mut per = vec![];
-    for incoming in [true, false] {
-        let sc = Upload { incoming };
-        let depth = ctx.tier.pick(8, 13);
+    for (incoming, second) in [(true, false), (false, false), (false, true)] {
+        let sc = Upload { incoming, second };
+        let depth = if second { ctx.tier.pick(13, 16) } else { ctx.tier.pick(8, 13) };
         let st = explore::bfs(ctx, &sc, depth, ctx.tier.pick(40, 20));
         per.push(json!({"scenario": Scenario::name(&sc), "depth": depth, "states": st.states, "transitions": st.transitions, "depth_completed": st.depth_completed}));
         bfs_total.merge(&st);
@@ -388,7 +410,7 @@ pub fn run(ctx: &Ctx) -> Outcome {
     o.set("histories", json!(all.len()));
     o.set("histories_ending_with_a_loaded_piece", json!(served));
     o.set("exhaustive", json!(done == all.len() as u64));
-    o.set("rule", json!(format!("requests = {:?} x {:?} x {:?} (240); histories: every single request in each of the contexts {:?} on an outgoing and an incoming connection; every pair (r1, r2) with r1 from {} and one of {:?} in between{}; states = distinct final snapshots, transitions = events executed. BFS part: one connection (both directions), events I/N interest, B bitfield, R real rotation (optimistic choice enumerated), Q0/Q2/Qb valid requests for owned pieces, Q1 request for the piece the client lacks, to the stated depth - this reaches the manager states in which the peer holds, or held, the optimistic unchoke", IDX, BEG, LEN, CONTEXTS, if ctx.tier == core::Tier::Thorough { "all 240 requests" } else { "the 6 loader requests" }, MIDS, if ctx.tier == core::Tier::Thorough { "; every triple over a 12-request sub-alphabet with every pair of in-between decisions" } else { "" })));
+    o.set("rule", json!(format!("requests = {:?} x {:?} x {:?} (240); histories: every single request in each of the contexts {:?} on an outgoing and an incoming connection; every pair (r1, r2) with r1 from {} and one of {:?} in between{}; states = distinct final snapshots, transitions = events executed. BFS part: one connection (both directions), events I/N interest, B bitfield, R real rotation (optimistic choice enumerated), Q0/Q2/Qb valid requests for owned pieces, Q1 request for the piece the client lacks, to the stated depth - this reaches the manager states in which the peer holds, or held, the optimistic unchoke; -with-second-peer: a manager-only peer P next to the connection (Pb bitfield, Pi/Pn interest) whose changes fall into the same rotations, requests restricted to Q0", IDX, BEG, LEN, CONTEXTS, if ctx.tier == core::Tier::Thorough { "all 240 requests" } else { "the 6 loader requests" }, MIDS, if ctx.tier == core::Tier::Thorough { "; every triple over a 12-request sub-alphabet with every pair of in-between decisions" } else { "" })));
     let picks = ctx.seeded_pick(all.len(), 4);
     o.set("samples", Value::Array(picks.iter().map(|i| json!({"connection": if all[*i].incoming { "incoming" } else { "outgoing" }, "context": CONTEXTS[all[*i].ctx], "requests": all[*i].seq.iter().map(|(r, m)| json!({"request": [r.0, r.1, r.2], "then": MIDS[*m]})).collect::<Vec<_>>()})).collect()));
     o.assume("client owns pieces 0 (16387 B) and 2 (5 B), not piece 1; choke/unchoke decisions are produced by the real rotation (timeout_change_conn_state) after the connection reported its rates; overflow checks are on, as in cargo test / cargo run builds");
@@ -398,7 +420,7 @@ pub fn run(ctx: &Ctx) -> Outcome {
 
 pub fn replay(_ctx: &Ctx, r: &Value) -> i32 {
     if let Some(name) = r["scenario"].as_str() {
-        return explore::replay_verbose(&Upload { incoming: name.contains("incoming") }, &explore::hist_from_json(&r["history"]), "C09");
+        return explore::replay_verbose(&Upload { incoming: name.contains("incoming"), second: name.contains("second-peer") }, &explore::hist_from_json(&r["history"]), "C09");
     }
     let c = Case {
         incoming: r["incoming"].as_bool().unwrap(),
